@@ -90,6 +90,7 @@ bool block_iter_get(struct block_iter *,
 
 struct block_builder *block_builder_init(size_t block_restart_interval);
 size_t block_builder_current_size_estimate(struct block_builder *);
+size_t block_builder_size_estimate_with(struct block_builder *, size_t);
 void block_builder_destroy(struct block_builder **);
 void block_builder_finish(struct block_builder *,
 	uint8_t **buf, size_t *bufsz);
